@@ -34,7 +34,8 @@ Default(a) ==
    wr |-> [i \in 1..NF(a) |-> FALSE]]
 
 \* the <<field, arg>> entries of setter s that touch field i
-Writes(a, s, i) == {w \in PRange(Doc[a].s[s].w) : w[1] = i}
+\* (setter index 0 = an interleaved check / clone, see ParamsDoc!MidOps: writes nothing)
+Writes(a, s, i) == IF s = 0 THEN {} ELSE {w \in PRange(Doc[a].s[s].w) : w[1] = i}
 
 \* one setter call c = [s |-> setter index, a |-> argument tuple]
 Apply(a, x, c) ==
@@ -135,7 +136,7 @@ ArgTuples(a, s) ==
   IF n = 1 THEN {<<x>> : x \in ArgGrid(a, s, 1)}
   ELSE IF n = 2 THEN {<<x, y>> : x \in ArgGrid(a, s, 1), y \in ArgGrid(a, s, 2)}
   ELSE {<<x, y, z>> : x \in ArgGrid(a, s, 1), y \in ArgGrid(a, s, 2), z \in ArgGrid(a, s, 3)}
-Calls(a, s) == {[s |-> s, a |-> t] : t \in ArgTuples(a, s)}
+Calls(a, s) == {[s |-> s, a |-> t, op |-> ""] : t \in ArgTuples(a, s)}     \* op: see ParamsDoc!MidOps
 
 CtorIdx(a) == {s \in 1..NS(a) : Doc[a].s[s].ctor}         \* {} or one index
 NonCtor(a) == {s \in 1..NS(a) : ~Doc[a].s[s].ctor}
@@ -184,7 +185,14 @@ Check ==
   /\ pc' = "consumed"
   /\ UNCHANGED <<alg, st, hist, verdict, out>>
 
-Next == New \/ SetP \/ CheckRef \/ (\E fm \in Forms : Use(fm)) \/ Check
+\* the builder is still there after a check by reference (or was cloned before it): it can be configured
+\* further and checked again; every check judges the values held at that moment
+Again ==
+  /\ pc = "checked"
+  /\ pc' = "set" /\ verdict' = "none" /\ out' = [fm \in Forms |-> "none"]
+  /\ UNCHANGED <<alg, st, hist>>
+
+Next == New \/ SetP \/ CheckRef \/ (\E fm \in Forms : Use(fm)) \/ Check \/ Again
 
 Spec == Init /\ [][Next]_vars
 
